@@ -356,11 +356,7 @@ func c02CaptureWitness(res *Result) {
 	bs, _ := t0.Serialize()
 	rep := map[string]interface{}{"token": fmt.Sprintf("%x", bs), "scenario": "authority role(#1024) issued over base table [corp_admin]; verifier uses the default table; holder appends a block whose first new symbol is \"corp_admin\"; policy allow if role(\"corp_admin\")"}
 	res.Count("capture-witness", true)
-	tok, err := biscuit.Unmarshal(bs)
-	if err != nil {
-		res.Dist("capture-witness:rejected-at-unmarshal")
-		return // repaired behaviour: the dangling reference is refused
-	}
+	tok, err := unmarshalOwned(bs)
 	verdict := func(t *biscuit.Biscuit) error {
 		a, err := t.AuthorizerFor(biscuit.WithSingularRootPublicKey(pub), biscuit.WithWorldOptions(datalog.WithMaxDuration(20*time.Second)))
 		if err != nil {
@@ -368,6 +364,13 @@ func c02CaptureWitness(res *Result) {
 		}
 		a.AddPolicy(biscuit.Policy{Kind: biscuit.PolicyKindAllow, Queries: []biscuit.Rule{{Head: biscuit.Predicate{Name: "q"}, Body: []biscuit.Predicate{{Name: "role", IDs: []biscuit.Term{biscuit.String("corp_admin")}}}}}})
 		return a.Authorize()
+	}
+	if err != nil {
+		res.Dist("capture-witness:rejected-at-unmarshal")
+		// repaired behaviour: the dangling reference is refused.  The holder can still append on the WIRE a block
+		// that declares a symbol for the dangling index: that token must be refused too
+		wireCapture(res, "dangling-symbol-capture:wire", bs, err, verdict, rep)
+		return
 	}
 	e1 := verdict(tok)
 	bb := tok.CreateBlock()
@@ -379,6 +382,45 @@ func c02CaptureWitness(res *Result) {
 	e2 := verdict(t2)
 	if e1 != nil && e2 == nil {
 		res.Violate("dangling-symbol-capture", "an appended block re-binds a dangling symbol of the authority block: T refused ("+e1.Error()+"), T+B authorized", rep)
+	}
+}
+
+// wireCapture: T (bytes) was refused at Unmarshal because a block refers to a symbol nothing declares.  The holder
+// appends, at wire level, blocks that declare "corp_admin" at the dangling index — as the block's first new symbol,
+// and after one or two other new symbols when the dangling index is further away — and every such T+B must be refused.
+func wireCapture(res *Result, key string, tBytes []byte, tErr error, verdict func(*biscuit.Biscuit) error, rep map[string]interface{}) {
+	for pad := 0; pad <= 2; pad++ {
+		syms := []string{}
+		for i := 0; i < pad; i++ {
+			syms = append(syms, fmt.Sprintf("pad%d", i))
+		}
+		syms = append(syms, "corp_admin")
+		tb, err := wireAppend(tBytes, declaringBlock(syms, uint64(1024+pad)), NewRNG(uint64(77+pad)).Bytes(32))
+		if err != nil {
+			return
+		}
+		var e2 error
+		pan := usable(func() {
+			t2, err := unmarshalOwned(tb)
+			if err != nil {
+				e2 = err
+				return
+			}
+			e2 = verdict(t2)
+		})
+		res.Dist("capture-wire:" + map[bool]string{true: "refused", false: "ACCEPTED"}[e2 != nil || pan != ""])
+		if pan != "" {
+			res.Violate("panic:"+key, "a token extended on the wire with a block declaring a dangling symbol panicked: "+pan, rep)
+			return
+		}
+		if e2 == nil {
+			r2 := map[string]interface{}{"parent_token_refused_with": tErr.Error(), "extended_token": fmt.Sprintf("%x", tb), "appended_block_declares": syms}
+			for k, v := range rep {
+				r2[k] = v
+			}
+			res.Violate(key, "a block appended on the wire declares a symbol for a dangling index of an earlier block: T refused ("+tErr.Error()+"), T+B authorized", r2)
+			return
+		}
 	}
 }
 
@@ -464,11 +506,7 @@ func c02CaptureMatrix(res *Result) {
 		res.Count("capture-matrix:"+c.name, true)
 		rep := map[string]interface{}{"position": c.name, "token": fmt.Sprintf("%x", bs), "authority_facts": c.facts, "authority_rules": c.rules, "authority_checks": c.checks,
 			"authorizer_facts": c.authFacts, "policy": c.authPolicy, "scenario": "authority issued over base table [corp_admin], read with the default table; B's first new symbol is \"corp_admin\""}
-		tok, err := biscuit.Unmarshal(bs)
-		if err != nil {
-			res.Dist("capture-matrix:" + c.name + ":rejected-at-unmarshal")
-			continue
-		}
+		tok, err := unmarshalOwned(bs)
 		verdict := func(t *biscuit.Biscuit) error {
 			a, err := t.AuthorizerFor(biscuit.WithSingularRootPublicKey(pub), biscuit.WithWorldOptions(longDuration()))
 			if err != nil {
@@ -481,6 +519,11 @@ func c02CaptureMatrix(res *Result) {
 			pol, _ := parser.FromStringPolicy(c.authPolicy)
 			a.AddPolicy(pol)
 			return a.Authorize()
+		}
+		if err != nil {
+			res.Dist("capture-matrix:" + c.name + ":rejected-at-unmarshal")
+			wireCapture(res, "dangling-symbol-capture:wire:"+c.name, bs, err, verdict, rep)
+			continue
 		}
 		var e1, e2 error
 		pan := usable(func() {
@@ -1416,7 +1459,7 @@ func c03SharedValueMatrix(res *Result) {
 			if err != nil {
 				return nil, err
 			}
-			return biscuit.Unmarshal(bs)
+			return unmarshalOwned(bs)
 		}
 		type outcome struct{ verdict, first, second, query string }
 		run := func(order string) (o outcome, panicked string) {
